@@ -214,7 +214,7 @@ pub fn nested(kind: NestKind, depth: usize) -> String {
 /// list item, `n` links long (no parentheses, no nesting: the evaluator's nesting cap never applies,
 /// so nothing but iteration keeps the native stack flat)
 pub fn flat_chain(rng: &mut Rng, n: usize) -> String {
-    match rng.below(14) {
+    match rng.below(18) {
         0 => format!("PRINT 0{}", " OR 0".repeat(n)),
         1 => format!("PRINT 1{}", " AND 1".repeat(n)),
         2 => format!("PRINT 1{}", " + 1".repeat(n)),
@@ -228,6 +228,9 @@ pub fn flat_chain(rng: &mut Rng, n: usize) -> String {
         10 => format!("DATA 1{}", ",1".repeat(n)),
         11 => format!("PRINT 1{}", " - 1".repeat(n)),
         12 => format!("PRINT 1{}", " < 1".repeat(n)),
+        14 => format!("PRINT {}1", "-".repeat(n)),
+        15 => format!("PRINT {}1", "NOT ".repeat(n)),
+        16 => format!("PRINT {}1", "- + ".repeat(n / 2)),
         _ => format!("IF 1{} THEN PRINT 1", " OR 1".repeat(n)),
     }
 }
